@@ -57,7 +57,7 @@
 (*                             resets it (client: once the server has      *)
 (*                             validated the address); nothing else does   *)
 (***************************************************************************)
-EXTENDS Naturals, Integers, Sequences, FiniteSets, TLC, Json, IOUtils
+EXTENDS Naturals, Integers, Sequences, FiniteSets, TLC, Json, IOUtils, LossOps
 Rec == ndJsonDeserialize(IOEnv.TRACE)
 N == Len(Rec)
 VARIABLES l, bad, server, pth, owed, cur
@@ -100,8 +100,6 @@ LossDelay(r) == Max((9 * Max(Get(r), r[1])) \div 8, 1000)
 PtoBase(r) == Get(r) + Max(4 * r[3], 1000)
 
 --------------------------------------------------------------------------------
-Pow2(n) == IF n = 0 THEN 1 ELSE IF n = 1 THEN 2 ELSE IF n = 2 THEN 4 ELSE IF n = 3 THEN 8 ELSE IF n = 4 THEN 16
-           ELSE IF n = 5 THEN 32 ELSE IF n = 6 THEN 64 ELSE IF n = 7 THEN 128 ELSE 256
 \* what the peer must have done for a client to stop guarding against its anti-amplification limit
 Validated(s) == server \/ s.st >= 2 \/ s.lack[2] >= 0 \/ s.lack[3] >= 0 \/ (s.keys[3] /\ ~s.keys[2])
 AmpBlocked(s) == ~s.val /\ s.recvb * 3 < s.sentb + 1
@@ -110,9 +108,9 @@ AmpBlocked(s) == ~s.val /\ s.recvb * 3 < s.sentb + 1
 Pto(s, mad, now) ==
   LET b == Pow2(s.ptoc)
       d == s.ptob * b
-      c1 == IF s.hif[1] /\ s.lae[1] # -1 THEN s.lae[1] + d ELSE -1
-      c2 == IF s.hif[2] /\ s.lae[2] # -1 THEN s.lae[2] + d ELSE -1
-      c3 == IF s.hif[3] /\ s.st # 0 /\ s.lae[3] # -1 THEN s.lae[3] + d + mad * b ELSE -1
+      c1 == IF s.hif[1] /\ s.lae[1] # -1 THEN PtoAt(s.lae[1], s.ptob, s.ptoc) ELSE -1
+      c2 == IF s.hif[2] /\ s.lae[2] # -1 THEN PtoAt(s.lae[2], s.ptob, s.ptoc) ELSE -1
+      c3 == IF s.hif[3] /\ s.st # 0 /\ s.lae[3] # -1 THEN PtoAt(s.lae[3], s.ptob + mad, s.ptoc) ELSE -1
       r1 == IF c1 # -1 THEN <<c1, 1>> ELSE <<-1, 0>>
       r2 == IF c2 # -1 /\ (r1[1] = -1 \/ c2 < r1[1]) THEN <<c2, 2>> ELSE r1
       r3 == IF c3 # -1 /\ (r2[1] = -1 \/ c3 < r2[1]) THEN <<c3, 3>> ELSE r2
@@ -167,13 +165,11 @@ Step ==
         \cup Flag(~e.sure \/ \A i \in DOMAIN e.lost : e.lost[i].pn < Q.lack[e.lost[i].sp + 1], "LostPacketNotOvertaken")
         \cup Flag(~e.sure \/ \A i \in DOMAIN e.lost :
                     LET x == e.lost[i] IN
-                    \/ Q.lack[x.sp + 1] >= x.pn + pth
-                    \/ e.t - x.ts >= dMin - 2, "LostBeforeThreshold")
+                    AtThreshold(Q.lack[x.sp + 1], x.pn, pth, e.t - x.ts, dMin - 2), "LostBeforeThreshold")
         \cup Flag(~e.sure \/ \A i \in DOMAIN e.lost : (e.lost[i].sp + 1) \in detSpaces, "LossOutsideDetection")
         \cup Flag(~(e.sure /\ open) \/ \A s \in detSpaces \ disc : \A i \in Rem(s) :
                     LET y == e.rem[i] IN
-                    /\ Q.lack[s] < y.pn + pth
-                    /\ e.t - y.ts < dMax + 2, "LostPacketNotDeclared")
+                    ~AtThreshold(Q.lack[s], y.pn, pth, e.t - y.ts, dMax + 2), "LostPacketNotDeclared")
         \cup Flag(~(e.sure /\ open) \/ \A s \in (1 .. 3) \ disc :
                     IF s \in detSpaces
                     THEN IF Rem(s) = {} THEN Q.lt[s] = -1
